@@ -37,14 +37,14 @@ type Package struct {
 
 // StructResult is the verdict for one shape.
 type StructResult struct {
-	ID       string            `json:"id"`
-	Status   string            `json:"status"` // ok | compile | rejected | crash
-	Detail   string            `json:"detail,omitempty"`
-	Decl     string            `json:"decl"`
-	Laws     map[string]string `json:"laws,omitempty"`  // law -> failure message ("" = held)
-	Counts   map[string]int    `json:"counts,omitempty"` // law -> evaluations
-	Evals    int               `json:"evals"`
-	Singled  bool              `json:"singled,omitempty"` // verdict obtained in a package of its own
+	ID      string            `json:"id"`
+	Status  string            `json:"status"` // ok | compile | rejected | crash
+	Detail  string            `json:"detail,omitempty"`
+	Decl    string            `json:"decl"`
+	Laws    map[string]string `json:"laws,omitempty"`   // law -> failure message ("" = held)
+	Counts  map[string]int    `json:"counts,omitempty"` // law -> evaluations
+	Evals   int               `json:"evals"`
+	Singled bool              `json:"singled,omitempty"` // verdict obtained in a package of its own
 }
 
 // PkgResult is what one scenario execution reports.
